@@ -39,6 +39,19 @@ type req struct {
 	Rx  string `json:"rx"`
 	Bad string `json:"bad"`
 	N   int    `json:"n"`
+	// framing layer (framing.go)
+	Mode   string   `json:"mode,omitempty"`
+	Which  string   `json:"which,omitempty"`
+	Chunks []string `json:"chunks,omitempty"`
+	Final  int      `json:"final,omitempty"`
+	MaxLen int64    `json:"maxlen,omitempty"`
+	Reads  []int    `json:"reads,omitempty"`
+	// HTTP (httpio.go)
+	Status int    `json:"status,omitempty"`
+	Body   string `json:"body,omitempty"`
+	Trunc  bool   `json:"trunc,omitempty"`
+	Limit  *string `json:"limit,omitempty"`
+	CLen   *int64 `json:"clen,omitempty"`
 }
 
 type resp struct {
@@ -48,6 +61,13 @@ type resp struct {
 	Closed int    `json:"closed"`
 	Panic  string `json:"panic,omitempty"`
 	Msg    string `json:"msg,omitempty"`
+	// framing layer / HTTP
+	Reads   []readObs `json:"reads,omitempty"`
+	Frames  []string  `json:"frames,omitempty"`
+	End     int       `json:"end"`
+	Calls   int       `json:"calls"`
+	Payload *string   `json:"payload,omitempty"`
+	OutLen  int       `json:"outlen"`
 }
 
 var protoFactory = frugal.NewFProtocolFactory(thrift.NewTBinaryProtocolFactoryConf(nil))
@@ -269,6 +289,12 @@ func classifyPanic(p string) (int, string) {
 }
 
 func handle(q req) resp {
+	if strings.HasPrefix(q.Rx, "fr_") {
+		return handleFraming(q)
+	}
+	if strings.HasPrefix(q.Rx, "hc_") || strings.HasPrefix(q.Rx, "hs_") {
+		return handleHTTPIO(q)
+	}
 	bad, _ := hex.DecodeString(q.Bad)
 	r := resp{Rx: q.Rx, Closed: -2}
 	switch q.Rx {
